@@ -979,7 +979,7 @@ def run(seed: int, tier: str) -> dict:
         st.count('history_len', str(len(hist['ops'])))
         st.count('tree_nodes', 'total', len(w.nodes))
         st.add('shapes', core.digest([[o['op'], o.get('strategy'), (o.get('where') or [None])[0]] for o in hist['ops']]))
-        if i == 0 and seed % 211 == 0:
+        if i == 0 and seed % 23 == 0:
             st.samples.append({'seed': hist['seed'], 'root': hist['root'], 'root_source': G.source(int(hist['root'][4:])) if hist['root'].startswith('gen:') else None,
                                'ops': [_short(o) for o in hist['ops']], 'nodes': [n['via'] for n in w.nodes],
                                'cursors': len(w.cursors)})
